@@ -108,7 +108,7 @@ inline std::vector<unsigned char> build(const File& f) {
 		put(card("BITPIX", std::to_string(h.bitpix))); put(card("NAXIS", std::to_string(h.axes.size())));
 		for (size_t i = 0; i < h.axes.size(); i++) put(card("NAXIS" + std::to_string(i + 1), std::to_string(h.axes[i])));
 		if (hi == 0) put(card("EXTEND", "T")); else { put(card("PCOUNT", "0")); put(card("GCOUNT", "1")); }
-		for (auto& c : h.cards) put(card(c.key, c.kind == 's' ? quoted(c.val) : c.val));
+		for (auto& c : h.cards) { if (c.kind == 'r') { std::string raw = c.val; raw.resize(80, ' '); put(raw); } else put(card(c.key, c.kind == 's' ? quoted(c.val) : c.val)); }   // 'r': the 80 characters verbatim
 		if (hi != 0 && h.has_extname) put(card("EXTNAME", quoted(h.name)));
 		{ std::string e = "END"; e.resize(80, ' '); put(e); }
 		while ((out.size() - start) % 2880) out.push_back(' ');
